@@ -1,5 +1,8 @@
 import SimbodyProofs.TreeDynAbs
 import SimbodyProofs.TreeDynRefine
+import SimbodyProofs.TreeDynSim
+import SimbodyProofs.TreeDynSimAbi
+import SimbodyProofs.TreeDynSimFwd
 
 /-!
 # C14 — mobilizer reaction forces satisfy Newton–Euler for every body
@@ -116,5 +119,30 @@ example : AllN (fun n => n.a) (udotA (fun n => n.a) (fun n => n.b - n.Fa) fieldF
     (MBT.mk b1 []) 0 :=
   reaction_projects_to_mobility_force _ _ _ _ _ leaf_WF
 end example_tree
+
+
+/-! ## simulation: the EXECUTED reaction `z⁺ + P⁺A⁺` (`TreeDyn.reactionAtOrigin` on the executed forward-dynamics result)
+is the twin's `reaction` at every node (free mobilizers; `WF` = every executed `D·DI = 1`, validated per case by `O wf`) -/
+section simulation
+open TreeDyn
+variable {F : Type} [Field F]
+
+theorem exec_reaction (f udotP : Array F) (tab : Array (Bias F)) (ta : Tr (Body F × Abi F)) (AP : SV F)
+    (hok : AbiOK (exF f tab) ta) (hwf : WF (absT (decA (exF f tab)) ta)) :
+    (reactionAtOrigin (fwdDown f udotP tab ta AP)).toVec
+      = reaction abF fbF fieldF (absT (decA (exF f tab)) ta) ((phiMat ta.val.1.l)ᵀ *ᵥ AP.toVec) :=
+  (sim_fwd_down f udotP tab ta AP hok hwf).2.2
+
+/-- hence (with `reaction_projects_to_mobility_force` at the root of every subtree) the executed reaction projected on the
+executed hinge columns is the applied mobility-force block -/
+theorem exec_reaction_projects (f udotP : Array F) (tab : Array (Bias F)) (ta : Tr (Body F × Abi F)) (AP : SV F)
+    (hok : AbiOK (exF f tab) ta) (hwf : WF (absT (decA (exF f tab)) ta)) :
+    (bd (absT (decA (exF f tab)) ta)).Hᵀ *ᵥ (reactionAtOrigin (fwdDown f udotP tab ta AP)).toVec
+      = fieldF (absT (decA (exF f tab)) ta) := by
+  rw [exec_reaction f udotP tab ta AP hok hwf]
+  have := residual_root abF fbF fieldF (absT (decA (exF f tab)) ta) ((phiMat ta.val.1.l)ᵀ *ᵥ AP.toVec) hwf
+  rw [Fr_eq abF fbF fieldF _ _ hwf] at this
+  exact this
+end simulation
 
 end C14
